@@ -46,8 +46,8 @@ ASSUME = ["scipy.stats.chi2.isf and numpy.linalg.solve/svd are trusted (shared n
           "SlidingNis before the window is full: sum and degrees of freedom over the steps seen so far",
           "at_bound only: the bound is bitwise chi2.isf(alpha, dof) as written in oneSidedChiSquareTest (a '<=' comparison is "
           "indistinguishable from a one-ulp larger bound otherwise)",
-          "metric budget = 300 * eps * cond2(S) * |r| * |S^-1 r| + 64 eps q per step (explicit-inverse error model; calibration on 1.6e6 "
-          "steps of the current tree: worst error 0.72 * eps*cond*|r|*|S^-1 r| for cond > 100 and 3 eps q at cond 1, i.e. >= 120x head-room), "
+          "metric budget = 300 * eps * cond2(S) * |r| * |S^-1 r| + 128 eps q per step (explicit-inverse error model; calibration on 1.6e6 "
+          "steps of the current tree: worst error 0.72 * eps*cond*|r|*|S^-1 r| for cond > 100 and 4 eps q at cond 1; largest fraction of the budget used on 2.5e6 steps: 0.01), "
           "summed with the window / fading weights; decision band = 1e-9*bound + budget"]
 SHARDS = {"quick": 4, "thorough": 16}
 BUDGET_S = {"quick": 60, "thorough": 540}
@@ -629,6 +629,19 @@ def _ctor_guards(ctx):
         except ValueError:
             ok = True
         ctx.check(ok, "fading-accepts-delta-outside-0-1", f"FadingMemoryNis(delta={d}) did not raise", {"kind": "ctor", "delta": d}, mon="ctor_domain")
+    _no_detector_guard(ctx)
+
+
+def _no_detector_guard(ctx):
+    """A filter without a detector raises nothing and declares nothing."""
+    from resonaate.estimation.sequential_filter import FilterFlag
+
+    f = _build_filter({"fmode": "plain"}, None)
+    f.innovation, f.innov_cvr = np.array([1e6, 0.0]), np.eye(2)
+    f.checkManeuverDetection()
+    ctx.check(f.flags == FilterFlag.NONE and f.maneuver_detected is False and f.maneuver_metric is None, "filter-no-detector",
+              f"filter without detector: flags={f.flags!r} detected={f.maneuver_detected!r} metric={f.maneuver_metric!r}",
+              {"kind": "ctor"}, mon="filter_flags")
 
 
 def replay(ctx, w):
